@@ -199,7 +199,7 @@ fn run_case(seed: u64, lean: &mut Lean, hist: &mut BTreeMap<String, u64>, sample
             if r.is_err() { let c = ctl(); let mut g = c.m.lock().unwrap(); g[id].panicked = true; g[id].done = true; c.cv.notify_all(); }
         }));
     }
-    let long = Duration::from_secs(10);
+    let long = Duration::from_secs(60);
     let mut at: Vec<&'static str> = vec![];
     for id in 0..n { at.push(wait_parked(id, long).unwrap_or("timeout")); }
     let mut pc = vec![0usize; n];            // index of the current command
@@ -313,7 +313,7 @@ fn run_case(seed: u64, lean: &mut Lean, hist: &mut BTreeMap<String, u64>, sample
             // version), seqno draw + registration of the ingested tables, tracker GC, unlock
             let c0 = db.seqno();
             release(t);
-            let Some(now) = wait_parked(t, long) else { fail!("impl-vs-oracle", "thread {t} did not finish its ingestion within 10 s"); aborted = true; break; };
+            let Some(now) = wait_parked(t, long) else { fail!("impl-vs-oracle", "thread {t} did not finish its ingestion within 60 s"); aborted = true; break; };
             let k = db.seqno() - c0;
             if k == 0 { fail!("impl-vs-oracle", "an ingestion drew no seqno between taking the journal lock and returning: its tables were registered outside the journal critical section, so a write that had already drawn its seqno can be overtaken (memtable entry older than the ingested table entry: get != scan)"); break; }
             for _ in 0..(k - 1) { lean.ask(&format!("conc.step {mirror}")); lean.ask(&format!("conc.step {mirror}")); }
@@ -341,7 +341,7 @@ fn run_case(seed: u64, lean: &mut Lean, hist: &mut BTreeMap<String, u64>, sample
         if !nm && !rep.starts_with("ok") { fail!("model-vs-impl", "model refuses the step of thread {t} at {point} ({cmd:?}): {rep}"); break; }
         // real step
         release(t);
-        let Some(mut now) = wait_parked(t, long) else { fail!("impl-vs-oracle", "thread {t} did not reach its next pause point from {point} ({cmd:?}) within 10 s (deadlock?)"); aborted = true; break; };
+        let Some(mut now) = wait_parked(t, long) else { fail!("impl-vs-oracle", "thread {t} did not reach its next pause point from {point} ({cmd:?}) within 60 s (deadlock?)"); aborted = true; break; };
         trace.push(format!("t{t}: {point} -> {now}"));
         // expectations (what the model's step corresponds to) and bookkeeping (from what was observed)
         let mut expect: &str = "";
@@ -404,7 +404,7 @@ fn run_case(seed: u64, lean: &mut Lean, hist: &mut BTreeMap<String, u64>, sample
         if now == "write.unlocked" {
             // the rest of the call (memtable size check, back-pressure) is not modelled: run on to the next command
             release(t);
-            let Some(nx) = wait_parked(t, long) else { fail!("impl-vs-oracle", "thread {t} did not return from its write within 10 s"); aborted = true; break; };
+            let Some(nx) = wait_parked(t, long) else { fail!("impl-vs-oracle", "thread {t} did not return from its write within 60 s"); aborted = true; break; };
             now = nx; pc[t] += 1;
             if holder == Some(t) { holder = None; }
             *hist.entry("write".into()).or_insert(0) += 1;
@@ -501,10 +501,10 @@ fn stall_probe() -> Option<Failure> {
     let (db2, d3) = (db.clone(), done_f.clone());
     let f = std::thread::spawn(move || { while fjall::verif::queued_worker_messages(&db2) > 0 { let _ = fjall::verif::verif_worker_step(&db2); } d3.store(true, Ordering::Release); });
     let t0 = Instant::now();
-    while !(done_w.load(Ordering::Acquire) && done_f.load(Ordering::Acquire)) && t0.elapsed() < Duration::from_secs(15) { std::thread::sleep(Duration::from_millis(10)); }
+    while !(done_w.load(Ordering::Acquire) && done_f.load(Ordering::Acquire)) && t0.elapsed() < Duration::from_secs(60) { std::thread::sleep(Duration::from_millis(10)); }
     if done_w.load(Ordering::Acquire) && done_f.load(Ordering::Acquire) { let _ = w.join(); let _ = f.join(); return None; }
     std::mem::forget(scratch);
-    Some(Failure { kind: "impl-vs-oracle", detail: format!("write stall: with 4 sealed memtables queued, a writer (returned: {}) and the flush worker (finished: {}) did not both make progress within 15 s - the stalled writer keeps the flush from running", done_w.load(Ordering::Acquire), done_f.load(Ordering::Acquire)), witness: None })
+    Some(Failure { kind: "impl-vs-oracle", detail: format!("write stall: with 4 sealed memtables queued, a writer (returned: {}) and the flush worker (finished: {}) did not both make progress within 60 s - the stalled writer keeps the flush from running", done_w.load(Ordering::Acquire), done_f.load(Ordering::Acquire)), witness: None })
 }
 
 fn main() {
